@@ -106,11 +106,15 @@ def call_accessors(dom, it):
     return out
 
 
-def mark_stale_after_solve(dom, written_in_solve):
-    """state handed to a second solve(): every work vector and every member the first solve wrote holds history"""
+def mark_stale_after_solve(dom, written_in_solve, rhs_after_setup=None):
+    """state handed to a second solve(): every work vector and every member the first solve wrote holds history.
+    Right-hand sides are setup-owned: one that the first solve left different from what setup() computed is history too."""
     for (l, w), b in dom.bufs.items():
         if w != "rhs":
             b["val"] = stale(l, w)
+        elif rhs_after_setup is not None and b["val"] is not rhs_after_setup.get((l, w), b["val"]):
+            b["val"] = stale(l, w)
+            dom.rhs_modified_by_solve = getattr(dom, "rhs_modified_by_solve", []) + [l]
     g = dom.gm.f
     for name in written_in_solve:
         if name.startswith("t_") or name not in g:
@@ -168,6 +172,7 @@ def scenario_reuse(prog, mode, first_choices_all_true=True):
     def body(dom, it):
         run_setup(dom, it)
         dom.field_writes = set()
+        rhs0 = {k: v["val"] for k, v in dom.bufs.items() if k[1] == "rhs"}
         # first solve: history-rich (two iterations, never converged), not forked; which members it MAY write
         # comes from the full exploration above
         dom.policy = False
@@ -177,7 +182,7 @@ def scenario_reuse(prog, mode, first_choices_all_true=True):
         dom.nofork_pred = scalar_has_stale
         dom.gm.f["max_iterations_"].set(mode.get("max_iterations", 1))
         n_first[0] = dom.n_choice
-        mark_stale_after_solve(dom, written)
+        mark_stale_after_solve(dom, written, rhs0)
         dom.events_first = list(dom.events)
         dom.events = []
         dom.choice_first = len(dom.choice_log)
